@@ -41,7 +41,7 @@ def cases(tier, seed):
     out = []
     for i in range(n):
         sub = ["ode", "ode", "ode", "refine", "refine", "single", "json"][i % 7]
-        c = {"sub": sub, "n": int(rng.choice([2, 3, 4, 5, 6, 8, 12, 20, 30])), "sampling": str(rng.choice(["serial", "serial", "contemp", "mixed"])),
+        c = {"sub": sub, "n": int(rng.choice([2, 3, 4, 5, 6, 8, 12, 20, 30])), "sampling": str(rng.choice(["serial", "serial", "contemp", "mixed", "serial", "serial", "contemp", "mixed", "contemp-psi"])),
              "m": 1 if sub == "single" else int(rng.integers(1, 9)), "boundaries": str(rng.choice(["default", "random", "random", "on-tip", "on-birth"])),
              "rho_interior": bool(rng.random() < 0.2), "r": str(rng.choice(["none", "none", "const", "per-epoch"])),
              "survival": bool(rng.random() < 0.6), "route": str(rng.choice(["json", "direct"])), "seed": int(rng.integers(2**31))}
@@ -62,7 +62,8 @@ def cases(tier, seed):
 def build(case):
     rng = np.random.default_rng(case["seed"])
     n, m = case["n"], case["m"]
-    if case["sampling"] == "contemp":
+    if case["sampling"] in ("contemp", "contemp-psi"):
+        # "contemp-psi": every tip at the present but no rho-sampling there (rho = 0, psi > 0): the tips are psi-samples at time 0
         th = np.zeros(n)
     elif case["sampling"] == "serial":
         th = rng.uniform(0.05, 3.0, n)
@@ -75,7 +76,7 @@ def build(case):
     names = ["t%d" % i for i in range(n)]
     # interior rho-sampling: put some tips exactly on a common height which will be a boundary
     rho_h = None
-    if case["rho_interior"] and m >= 2 and n >= 3 and case["sampling"] != "contemp":
+    if case["rho_interior"] and m >= 2 and n >= 3 and not case["sampling"].startswith("contemp"):
         rho_h = float(rng.uniform(0.3, 2.0))
         k = int(rng.integers(1, max(2, n // 3) + 1))
         idx = rng.choice(n, size=k, replace=False)
@@ -125,7 +126,7 @@ def build(case):
     if rv is not None and np.all(s == 0):
         s = rng.uniform(0.05, 0.9, m)
     rho = [0.0] * m  # by height: rho[j] at b_j
-    if case["sampling"] in ("contemp", "mixed") or rng.random() < 0.2:
+    if case["sampling"] in ("contemp", "mixed") or (rng.random() < 0.2 and case["sampling"] != "contemp-psi"):
         rho[0] = float(rng.uniform(0.05, 1.0))
     if rho_h is not None:
         rho[b.index(rho_h)] = float(rng.uniform(0.1, 0.9))
